@@ -11,6 +11,10 @@ import (
 // split the string by period.
 var bucketNamePattern = regexp.MustCompile(`^[a-z0-9]([a-z0-9\.-]+)[a-z0-9]$`)
 
+// dottedQuadPattern matches names formatted like an IPv4 address (as the AWS
+// SDKs check it): four groups of digits separated by dots.
+var dottedQuadPattern = regexp.MustCompile(`^([0-9]+\.){3}[0-9]+$`)
+
 // ValidateBucketName applies the rules from the AWS docs:
 // https://docs.aws.amazon.com/AmazonS3/latest/dev/BucketRestrictions.html#bucketnamingrules
 //
@@ -29,7 +33,10 @@ func ValidateBucketName(name string) error {
 		return ErrorMessage(ErrInvalidBucketName, "bucket must start and end with 'a-z, 0-9', and contain only 'a-z, 0-9, -' in between")
 	}
 
-	if net.ParseIP(name) != nil {
+	if net.ParseIP(name) != nil || dottedQuadPattern.MatchString(name) {
+		// net.ParseIP alone does not cover every name that is formatted as an
+		// IP address: it refuses octets with leading zeros (127.000.000.001)
+		// and octets above 255.
 		return ErrorMessage(ErrInvalidBucketName, "bucket names must not be formatted as an IP address")
 	}
 
